@@ -1,5 +1,6 @@
 import NbioVerif.Lemmas.ReadPathMeasure
 import NbioVerif.Lemmas.FdTableInv
+import NbioVerif.Lemmas.UdpSessInv
 import NbioVerif.Lemmas.ReadPathDgram
 import NbioVerif.Model.Gate
 /-! C02 Inbound delivery integrity (model level, `Model/ReadPath.lean`).
